@@ -105,6 +105,7 @@ type World struct {
 	Abstr    map[string]bool // abstracted calls
 	Unsup    map[string]bool // unsupported constructs encountered
 	roMaps    map[types.Object]*roMap
+	LockOrder map[[2]string]bool
 	addrTaken map[*types.Var]bool
 }
 
@@ -835,4 +836,34 @@ func (ex *Exec) mapInitEmpty(st *State, m *types.Map, ref *Term) {
 	ks := ex.sortOf(m.Key())
 	empty := &Term{Op: "((as const " + arrSort(ks, SBool) + ") false)", S: arrSort(ks, SBool)}
 	st.heaps[hn] = store(hh, ref, empty)
+}
+
+// lockOrderCheck: lock L is about to be taken while the locks in st.held are
+// held.  Every such nesting must follow a declared order (`lockorder A < B`:
+// B may be taken while A is held); an undeclared or reversed nesting is
+// reported - two threads nesting the same two locks in opposite orders can
+// block each other for ever.
+func (ex *Exec) lockOrderCheck(st *State, l string, pos token.Pos) {
+	var hs []string
+	for h := range st.held {
+		hs = append(hs, h)
+	}
+	sort.Strings(hs)
+	for _, h := range hs {
+		if h == l {
+			ex.obligeAST("lock-order", h+"->"+l, pos, false,
+				fmt.Sprintf("%s: %s is taken while it is already held by the same thread", ex.posStr(pos), l), nil)
+			continue
+		}
+		ok := ex.W.LockOrder[[2]string{h, l}]
+		msg := ""
+		if !ok {
+			if ex.W.LockOrder[[2]string{l, h}] {
+				msg = fmt.Sprintf("%s: %s is taken while %s is held, against the declared order %s < %s: a thread holding %s and waiting for %s (which the declared order allows) and this one block each other for ever", ex.posStr(pos), l, h, l, h, l, h)
+			} else {
+				msg = fmt.Sprintf("%s: %s is taken while %s is held and no order between the two is declared", ex.posStr(pos), l, h)
+			}
+		}
+		ex.obligeAST("lock-order", h+"->"+l, pos, ok, msg, nil)
+	}
 }
